@@ -34,6 +34,8 @@ def run(tier, seed):
                 prune=prune, props=P, batch_len=1, exits=("commit", "abort"), pairs=True)
     if tier == "thorough":
         for prune in (False, True):
+            run_hex(rep, f"H4xSL chains of 3 operations on ONE live object prune={prune}", universe="H4", values=("S", "L"), prune=prune, props=P, chain=3)
+            run_hex(rep, f"HS4xSL chains of 3 operations on ONE live object prune={prune}", universe="HS4", values=("S", "L"), prune=prune, props=P, chain=3)
             run_hex(rep, f"H4xSL pairs on one live object prune={prune}", universe="H4", values=("S", "L"), prune=prune, props=P, batch_len=1,
                     exits=("commit", "abort"), pairs=True)
             run_hex(rep, f"H9xSL direct prune={prune}", universe="H9", values=("S", "L"), prune=prune, props=P)
